@@ -31,7 +31,124 @@ TRANSFORMED = {
     "mox2+tr2+cov": ("mox2", [("set_transit_compartments", {"n": 2}), ("add_covariate_effect", {"parameter": "CL", "covariate": "WT", "effect": "exp"})]),
     "pheno+mm+iov": ("pheno", [("set_michaelis_menten_elimination", {}), ("add_iov", {"occ": "FA1"})]),
     "mox2+admid+tad": ("mox2", [("add_admid", {}), ("add_time_after_dose", {})]),
+    "pheno+zoi": ("pheno", [("add_population_parameter", {"name": "POP_KIN", "init": 0.5, "lower": 0.0}),
+                            ("set_zero_order_input", {"compartment": "CENTRAL", "expression": "POP_KIN"})]),
 }
+
+
+# Synthetic start models covering the less common kinds of data columns, so that the data-touching functions reach
+# their branches: NM-TRAN DATE + clock TIME, ADDL/II/SS, RATE, CMT, EVID 3/4, a categorical covariate, DROPped columns,
+# and a $DES model whose zero-order input is given directly by a THETA.  Written to a scratch directory by the parent.
+SYNTHETIC = {
+    "syn_date": ("""$PROBLEM date/time data
+$INPUT ID DATE=DROP TIME AMT DV SEX JUNK=DROP
+$DATA syn_date.csv IGNORE=@
+$SUBROUTINES ADVAN1 TRANS2
+$PK
+CL = THETA(1)*EXP(ETA(1))
+V = THETA(2)*EXP(ETA(2))
+IF (SEX.EQ.1) V = V*THETA(3)
+S1 = V
+$ERROR
+Y = F + F*EPS(1)
+$THETA (0,0.5) ; POP_CL
+$THETA (0,10) ; POP_V
+$THETA (0,1.2) ; SEX_V
+$OMEGA 0.1
+$OMEGA 0.1
+$SIGMA 0.02
+$ESTIMATION METHOD=1 INTER
+""", "syn_date.csv", """ID,DATE,TIME,AMT,DV,SEX,JUNK
+1,10/01/2020,08:00,100,0,0,9
+1,10/01/2020,10:30,0,7.5,0,9
+1,10/02/2020,08:00,0,3.1,0,9
+2,11/15/2020,09:15,100,0,1,9
+2,11/15/2020,12:15,0,6.9,1,9
+2,11/16/2020,09:45,0,2.8,1,9
+3,01/05/2021,07:00,150,0,1,9
+3,01/05/2021,09:00,0,9.9,1,9
+3,01/06/2021,07:30,0,4.2,1,9
+"""),
+    "syn_events": ("""$PROBLEM events: RATE ADDL II SS CMT EVID
+$INPUT ID TIME AMT RATE ADDL II SS CMT EVID DV WGT SEX OLD=DROP
+$DATA syn_events.csv IGNORE=@
+$SUBROUTINES ADVAN2 TRANS2
+$PK
+CL = THETA(1)*EXP(ETA(1))*(WGT/70)
+V = THETA(2)*EXP(ETA(2))
+KA = THETA(3)
+IF (SEX.EQ.2) CL = CL*THETA(4)
+S2 = V
+$ERROR
+IPRED = F
+Y = IPRED + IPRED*EPS(1) + EPS(2)
+$THETA (0,2) ; POP_CL
+$THETA (0,30) ; POP_V
+$THETA (0,1.5) ; POP_KA
+$THETA (0,0.8) ; SEX_CL
+$OMEGA 0.09
+$OMEGA 0.09
+$SIGMA 0.04
+$SIGMA 0.1
+$ESTIMATION METHOD=1 INTER
+""", "syn_events.csv", """ID,TIME,AMT,RATE,ADDL,II,SS,CMT,EVID,DV,WGT,SEX,OLD
+1,0,100,0,2,12,0,1,1,0,70,1,5
+1,1,0,0,0,0,0,2,0,2.1,70,1,5
+1,6,0,0,0,0,0,2,0,3.4,70,1,5
+1,30,0,0,0,0,0,2,0,1.9,70,1,5
+1,48,0,0,0,0,0,2,3,0,70,1,5
+1,48,50,25,0,0,0,2,1,0,70,1,5
+1,50,0,0,0,0,0,2,0,2.2,70,1,5
+2,0,100,0,0,12,1,1,1,0,82,2,5
+2,2,0,0,0,0,0,2,0,2.9,82,2,5
+2,8,0,0,0,0,0,2,0,2.0,82,2,5
+2,24,80,40,0,0,0,2,4,0,82,2,5
+2,26,0,0,0,0,0,2,0,3.3,82,2,5
+3,0,120,60,1,24,0,2,1,0,55,2,5
+3,3,0,0,0,0,0,2,0,4.1,55,2,5
+3,27,0,0,0,0,0,2,0,3.8,55,2,5
+"""),
+    "syn_des": ("""$PROBLEM turnover model with production rate directly from THETA
+$INPUT ID TIME AMT WGT APGR DV
+$DATA syn_des.csv IGNORE=@
+$SUBROUTINES ADVAN13 TOL=9
+$MODEL COMPARTMENT=(CENTRAL DEFDOSE)
+$PK
+CL = THETA(1)*EXP(ETA(1))
+V = THETA(2)*EXP(ETA(2))
+S1 = V
+$DES
+DADT(1) = THETA(3) - CL/V*A(1)
+$ERROR
+Y = F + F*EPS(1)
+$THETA (0,0.005) ; POP_CL
+$THETA (0,1.5) ; POP_V
+$THETA (0,0.3) ; POP_KIN
+$OMEGA 0.1
+$OMEGA 0.1
+$SIGMA 0.02
+$ESTIMATION METHOD=1 INTER
+""", "syn_des.csv", None),
+}
+SYN_DIR = None  # set by the parent (write_synthetic) before forking
+
+
+def write_synthetic(d):
+    """Write the synthetic control streams and data files to directory d (once, in the parent)."""
+    global SYN_DIR
+    d.mkdir(parents=True, exist_ok=True)
+    for key, (code, dname, data) in SYNTHETIC.items():
+        (d / f"{key}.mod").write_text(code)
+        if data is None:
+            import pandas as pd
+
+            src = pd.read_csv(core.REPO / "tests/testdata/nonmem/pheno.dta", sep=r"\s+", engine="python")
+            src = src[["ID", "TIME", "AMT", "WGT", "APGR", "DV"]].head(60)
+            src.to_csv(d / dname, index=False)
+        else:
+            (d / dname).write_text(data)
+    SYN_DIR = d
+    return d
 
 
 def _sha(*parts) -> str:
@@ -214,6 +331,29 @@ def digest_of(parts: dict) -> str:
 # ----------------------------------------------------------------------------- well-formedness bits
 
 
+def ode_symbols(cs) -> set:
+    """Names of all symbols the compartmental system uses, collected from the graph itself (rates of the flows, and of every
+    compartment the dose amounts / rates / durations, zero-order input, lag time and bioavailability) -- not through
+    CompartmentalSystem.free_symbols / Compartment.free_symbols, which are code under test."""
+    exprs = [r for _, _, r in cs._g.edges.data("rate")]
+    for c in cs._g.nodes:
+        if type(c).__name__ != "Compartment":
+            continue
+        exprs += [c.input, c.lag_time, c.bioavailability]
+        for d in c._doses:
+            for a in ("amount", "rate", "duration"):
+                e = getattr(d, a, None)
+                if e is not None:
+                    exprs.append(e)
+    used = set()
+    for e in exprs:
+        try:
+            used |= {str(x) for x in e.free_symbols}
+        except Exception:
+            pass
+    return used
+
+
 def wf_bits(m, code_ok: bool | None = None, detail: dict | None = None) -> list:
     """The bits of the property statement that hold for model m (independent of pharmpy's own validation):
     bounds  : lower <= init <= upper for every parameter
@@ -257,7 +397,7 @@ def wf_bits(m, code_ok: bool | None = None, detail: dict | None = None) -> list:
     ok = True
     for s in m.statements:
         if type(s).__name__ == "CompartmentalSystem":
-            used = {str(x) for x in s.free_symbols}
+            used = ode_symbols(s) - {str(a) for a in s.amounts} - {getattr(a, "name", "") for a in s.amounts}
             if not used <= defined:
                 ok = False
                 if detail is not None:
@@ -584,6 +724,12 @@ def build_base(key: str):
 
     if key in CORPUS:
         return read_corpus(key)
+    if key in SYNTHETIC:
+        from pharmpy.modeling import read_model
+
+        if SYN_DIR is None:
+            raise core.MachineryError("synthetic corpus was not written")
+        return read_model(SYN_DIR / f"{key}.mod")
     ckey, chain = TRANSFORMED[key]
     m = read_corpus(ckey)
     for fname, kw in chain:
